@@ -254,9 +254,11 @@ def r12_6_create(repo: Repo, rep: Report):
 
 def r12_7_shared(repo: Repo, rep: Report):
     """the length substitution of a path (Concretization) must be the path's own: fork-copy completeness (shared with C20)"""
-    from hsa.rules.c20 import r20_1_fork_copies
+    from hsa.rules.c20 import r20_1_fork_copies, r20_5_uid_nominal
 
     r20_1_fork_copies(repo, rep)
+    # leaf symbols are distinct because their names are: uid() must be fresh per call
+    r20_5_uid_nominal(repo, rep)
 
 
 RULES = [r12_7_shared, r12_1_type_coverage, r12_2_allow_list, r12_3_leaf_freshness, r12_4_candidates, r12_5_static_dynamic, r12_6_create]
